@@ -8,6 +8,8 @@
       shape, the 2 literals of parse_environ_block, readlink's NUL / ` (deleted)` / cut length, the 15 of
       `name()`, the kind of string `name()` tests (bytes vs code points), the newline mode of `open_text`, and
       the four exception tables read from the `except` clauses of name()/exe() (`cfg_except_clauses`);
+    * `cfg_exists_strict` — the `except` clauses of `path_exists_strict` around `os.stat` (every failure but
+      PermissionError answers False) and that it is the helper `readlink()` asks about the ` (deleted)` name;
     * `cfg_block_cached_sources` — which methods a oneshot() block caches (none of C12's);
     * `cfg_gone_test` — `wrap_exceptions` tests `/proc/<pid>/stat` (#2418) and asks the zombie test first;
     * `cfg_zombie_parser` — `_is_zombie`'s own parser: byte 2 after the LAST `)`, compared with `Z`;
@@ -27,6 +29,7 @@ import PsutilModel.Proofs.C12Front
 import PsutilModel.Proofs.C12Round3
 import PsutilModel.Proofs.C12Shapes
 import PsutilModel.Proofs.C12AsFound
+import PsutilModel.Proofs.C12Stat
 import PsutilModel.Model.C12Gen
 namespace Psutil.C12
 open Spec
@@ -352,14 +355,17 @@ theorem C12_environ_duplicates (w : World) (env : List (Bytes × Bytes)) (hd : w
 /-! ## exe() / cwd() links -/
 
 /-- **C12_link_cleanup.** For every link target: NUL garbage is cut; a ` (deleted)` suffix is
-    removed iff nothing with the suffixed name exists; a file really named `… (deleted)`
+    removed iff nothing with the suffixed name exists — `os.stat` of it says ENOENT, or fails with ANY other
+    errno / class except PermissionError (seeded round 5) —; a file really named `… (deleted)`
     keeps its name. (`tail` = nothing, or NUL followed by anything.) This is a statement about the clean-up
     function `readlinkClean` (= `_pslinux.readlink` after `os.readlink`); that `cwd()` and the native `exe()`
     return exactly this for a readable link is `C12_link_spec` (through `Spec.link`, whose `.target` arm is
     `linkClean` = this clean-up, `readlinkClean_eq`). -/
 theorem C12_link_cleanup (fs : Bytes → FsEnt) (p tail : Bytes) (hp : 0 ∉ p)
     (ht : tail = [] ∨ tail.head? = some 0) :
-    (fs (p ++ deleted) = .absent → readlinkClean cfg fs (p ++ deleted ++ tail) = .ok p)
+    ((fs (p ++ deleted) = .absent
+        ∨ ∃ en cls, cls ≠ .permission ∧ fs (p ++ deleted) = .unstatable en cls) →
+      readlinkClean cfg fs (p ++ deleted ++ tail) = .ok p)
     ∧ ((fs (p ++ deleted) = .dir ∨ ∃ x, fs (p ++ deleted) = .file x) →
         readlinkClean cfg fs (p ++ deleted ++ tail) = .ok (p ++ deleted))
     ∧ ((¬ ∃ q, p = q ++ deleted) → readlinkClean cfg fs (p ++ tail) = .ok p) := by
@@ -370,11 +376,13 @@ theorem C12_link_cleanup (fs : Bytes → FsEnt) (p tail : Bytes) (hp : 0 ∉ p)
   · intro habs
     have htw := takeWhile_ne_of_tail 0 (p ++ deleted) tail hpd ht
     rw [readlinkClean_eq]
-    simp only [linkClean, htw, stripDeleted_append, habs]
+    rcases habs with habs | ⟨en, cls, hne, habs⟩
+    · simp only [linkClean, htw, stripDeleted_append, habs, named]
+    · simp only [linkClean, htw, stripDeleted_append, habs, named, hne, if_false]
   · intro hex
     have htw := takeWhile_ne_of_tail 0 (p ++ deleted) tail hpd ht
     rw [readlinkClean_eq]
-    rcases hex with h | ⟨x, h⟩ <;> simp only [linkClean, htw, stripDeleted_append, h]
+    rcases hex with h | ⟨x, h⟩ <;> simp only [linkClean, htw, stripDeleted_append, h, named]
   · intro hno
     have htw := takeWhile_ne_of_tail 0 p tail hp ht
     rw [readlinkClean_eq]
@@ -557,6 +565,8 @@ theorem C12_exe_withheld_link (w : World) (e : Err) (hd : w.dirExists = true) (h
       simpa [remembered] using key (.error .zombieProcess) false (by simp [Spec.exeOnce, hlink, Spec.guessOf, hc])
     | fileNotFound =>
       simpa [remembered] using key (.error .fileNotFound) false (by simp [Spec.exeOnce, hlink, Spec.guessOf, hc])
+    | osError en =>
+      simpa [remembered] using key (.error (.osError en)) false (by simp [Spec.exeOnce, hlink, Spec.guessOf, hc])
   | ok cl =>
     cases cl with
     | nil =>
@@ -1148,5 +1158,96 @@ theorem C12_name_defect_region (n ext : Bytes) (hn : Ascii n) (he : Ascii ext) :
     ∧ namePrefix { good with nameTestOnBytes := false } n ext = namePrefix good n ext := by
   simp [nameLen, namePrefix, good, chars_ascii n hn, chars_ascii ext he,
     isPrefixOf_map_singleton, startsWith]
+
+/-! ### seeded round 5: `os.stat` of the ` (deleted)` name failing with another errno than ENOENT / EACCES -/
+
+/-- **cfg_exists_strict.** The `except` clauses of `path_exists_strict` around `os.stat(path)`, read as Python
+    reads them over `OSError` and its subclasses (first clause naming a class of the exception): every failure
+    is answered `False` except a PermissionError, which no clause answers; no failure is answered `True`; and
+    `readlink()` decides staleness of a ` (deleted)` suffix by `not path_exists_strict(path)`. (The first two
+    are part of `cfg_good`, stated separately so that a narrowed clause points here.) -/
+theorem cfg_exists_strict :
+    osHandledWith Gen.C12.existsStrictClauses "false" = OsCls.all.filter (· != .permission)
+    ∧ osHandledWith Gen.C12.existsStrictClauses "true" = []
+    ∧ Gen.C12.readlinkStaleTest = "path_exists_strict" := by decide
+
+/-- **C12_exists_strict_answer.** SPEC. For every answer of the file system — any errno, any `OSError` class —
+    `path_exists_strict` says what the specification's `named` says: True iff `os.stat` succeeds, False iff it
+    fails otherwise than by a refusal, and only a PermissionError leaves it. -/
+theorem C12_exists_strict_answer (fs : Bytes → FsEnt) (p : Bytes) :
+    (named (fs p) = some true → existsStrict cfg fs p = .yes)
+    ∧ (named (fs p) = some false → existsStrict cfg fs p = .no)
+    ∧ (named (fs p) = none → ∃ en, existsStrict cfg fs p = .raises .permission en) := by
+  rw [cfg_good]
+  unfold existsStrict
+  cases h : fs p with
+  | unstatable en cls => cases cls <;> simp [named, statFailure]
+  | _ => simp [named, statFailure]
+
+/-- **C12_stat_errno_never_matters.** For EVERY world, object state and call — and every history of calls on
+    one object, and every call inside a `oneshot()` block —: the errno (and the `OSError` class) with which
+    `os.stat` of any path outside procfs fails makes no difference. The answer is the one of the world in which
+    such a failure is plain ENOENT (EACCES for a PermissionError). No hypothesis: ENOTDIR, ELOOP, ENAMETOOLONG,
+    ESTALE, EIO, … on the ` (deleted)` name of exe / cwd or on `cmdline()[0]` never leak out as an `OSError`
+    and never change what is returned or remembered. The specification does not look at the errno either. -/
+theorem C12_stat_errno_never_matters (w : World) (st : St) (c : Call) :
+    step cfg st w.forgetErrno c = step cfg st w c
+    ∧ (∀ b, stepIn cfg b st w.forgetErrno c = stepIn cfg b st w c)
+    ∧ (∀ h : List (World × Call),
+        runAll cfg st (h.map fun wc => (wc.1.forgetErrno, wc.2)) = runAll cfg st h)
+    ∧ (∀ ws, Spec.call (ws.map World.forgetErrno) w.forgetErrno c = Spec.call ws w c) := by
+  rw [cfg_good]
+  exact ⟨step_forgetErrno w st c, fun b => stepIn_forgetErrno b w st c, runAll_forgetErrno st,
+    fun ws => specCall_forgetErrno ws w c⟩
+
+/-- **C12_unstatable_deleted_is_stale.** SPEC, stated on the world. The link says `p (deleted)` (+ NUL garbage)
+    and `os.stat("p (deleted)")` fails with ANY errno `en`, raised as ANY class but PermissionError: nothing of
+    that name exists, the suffix is the kernel's remark — `cwd()` returns `p`, and `exe()` returns and remembers
+    `p` (non-empty), for a zombie as well as for a live process. -/
+theorem C12_unstatable_deleted_is_stale (w : World) (p tail : Bytes) (en : Nat) (cls : OsCls)
+    (hd : w.dirExists = true) (hp : 0 ∉ p) (ht : tail = [] ∨ tail.head? = some 0)
+    (hc : cls ≠ .permission) (hfs : w.fs (p ++ deleted) = .unstatable en cls) :
+    (w.cwd = .target (p ++ deleted ++ tail) → cwd cfg w = .ok p ∧ Spec.cwd w = some (.ok p))
+    ∧ (w.exe = .target (p ++ deleted ++ tail) → p ≠ [] → exe cfg w ⟨none⟩ = (⟨some p⟩, .ok p)) := by
+  have hclean := (C12_link_cleanup w.fs p tail hp ht).1 (Or.inr ⟨en, cls, hc, hfs⟩)
+  have hpd : 0 ∉ p ++ deleted := by
+    simp only [List.mem_append, not_or]; exact ⟨hp, by decide⟩
+  have htw := takeWhile_ne_of_tail 0 (p ++ deleted) tail hpd ht
+  constructor
+  · intro hl
+    constructor
+    · simp only [cwd, readlinkRaw, effLink, hd, hl, hclean, wrap, if_true]
+    · simp only [Spec.cwd, Spec.link, hd, hl, linkClean, htw, stripDeleted_append, hfs, named, hc, if_false,
+        Bool.not_true, Bool.false_eq_true, Option.map_some]
+  · intro hl hne
+    have hpe : procExe cfg w = .ok p := by
+      simp only [procExe, readlinkRaw, effLink, hd, hl, hclean, wrap, if_true]
+    have : p.isEmpty = false := by cases p <;> simp_all
+    simp [exe, hpe, this]
+
+def wNotDir : World :=
+  { wEx with
+    -- cwd -> "/d/f (deleted)"; `/d` is a regular file now: stat of the suffixed name says ENOTDIR
+    cwd := .target ([47, 100, 47, 102] ++ deleted)
+    fs := fun p => if p = [47, 100, 47, 102] ++ deleted then .unstatable 20 .notADirectory else .absent }
+
+/-- `path_exists_strict` narrowed to `except FileNotFoundError: return False` (what a "tidied" helper looks like) -/
+def narrowExists : Cfg := { good with existsFalseOn := [.fileNotFound] }
+
+/-- **C12_exists_strict_needs_catch_all.** Proved counterexample for the narrowed helper: with only
+    FileNotFoundError answered False, `cwd()` of a link `/d/f (deleted)` whose parent became a file (ENOTDIR) leaks
+    a bare OSError, where the specification — and the code as it is — return `/d/f`. -/
+theorem C12_exists_strict_needs_catch_all :
+    cwd narrowExists wNotDir = .error (.osError 20)
+    ∧ Spec.cwd wNotDir = some (.ok [47, 100, 47, 102])
+    ∧ cwd cfg wNotDir = .ok [47, 100, 47, 102] := by decide
+
+/-- non-vacuity: ELOOP (plain OSError) on the exe link's name, NUL garbage behind it: stripped and remembered -/
+example :
+    let w : World := { wEx with
+      exe := .target ([47, 108, 47, 103] ++ deleted ++ [0, 120])
+      fs := fun p => if p = [47, 108, 47, 103] ++ deleted then .unstatable 40 .osError else .absent }
+    exe cfg w ⟨none⟩ = (⟨some [47, 108, 47, 103]⟩, .ok [47, 108, 47, 103])
+    ∧ Spec.call [] w .exe = some (.str (.ok [47, 108, 47, 103])) := by decide
 
 end Psutil.C12
